@@ -15,7 +15,7 @@ FIELDS = ('transmit_window_size_', 'connection_interval_', 'peripheral_latency_'
 
 
 def run(chk, facts, tier):
-    chk.rule('timing-field-bounds', 'check_timing_paremeters bounds every parsed timing field from below and from above (peripheral latency: unsigned, upper bound only)', floor=4)
+    chk.rule('timing-field-bounds', 'check_timing_paremeters bounds every parsed timing field from below and from above (peripheral latency: unsigned, upper bound only)', floor=5)
     chk.rule('fields-parsed', 'both parse functions store all timing fields from the PDU body before validating, and return the validation result', floor=2)
     chk.rule('enter-only-if-valid', 'state_ = connecting only if channels_.reset(..) && parse_timing_parameters_from_connect_request(..); connection_changed only if the update parameters validate, otherwise disconnect', floor=2)
     chk.rule('supervision', 'timeout(): the next event is planned only while time_since_last_event < connection_timeout_ (and, while connecting, fewer than 6 intervals passed); otherwise force_disconnect()', floor=1)
@@ -85,6 +85,23 @@ def run(chk, facts, tier):
                 ok, need = lo and hi, 'lower and upper'
             chk.instance('timing-field-bounds', fn, '%s: lower bound %s, upper bound %s' % (f, lo, hi), ok,
                          '' if ok else '%s is accepted without a %s bound: a CONNECT_IND / update with an out-of-range value (e.g. interval 0) establishes a connection' % (f, need), key=f)
+        # relational bound: supervision timeout >= (1 + latency) * interval * 2, without rounding
+        def factors(n):
+            n = strip_casts(n)
+            b = as_binop(n)
+            if b and b[0] == '*':
+                return factors(b[1]) + factors(b[2])
+            return [n]
+        rel = False
+        for s2, op, o in norm_atoms(ats, lambda n: is_name(n, 'connection_timeout_')):
+            if op in ('>=',) and not isinstance(o, int) and mentions(o, 'peripheral_latency_') and mentions(o, 'connection_interval_'):
+                fs = factors(o)
+                lat = [f for f in fs if as_binop(f) is not None and as_binop(f)[0] == '+' and is_name(as_binop(f)[1], 'peripheral_latency_') and cval(as_binop(f)[2]) == 1]
+                two = [f for f in fs if cval(f) == 2]
+                itv = [f for f in fs if is_name(f, 'connection_interval_')]
+                rel = len(fs) == 3 and len(lat) == 1 and len(two) == 1 and len(itv) == 1
+        chk.instance('timing-field-bounds', fn, 'connection_timeout_ >= ( peripheral_latency_ + 1 ) * 2 * connection_interval_ (exact, in delta_time)', rel,
+                     '' if rel else 'the supervision timeout is not compared with (1 + latency) * interval * 2 in exact arithmetic (no such conjunct on connection_timeout_, or a rounded / divided form): parameters whose timeout lies just below the required minimum establish a connection', key='timeout vs latency')
     for name in ('parse_timing_parameters_from_connect_request', 'parse_timing_parameters_from_connection_update_request'):
         for fn in variants(facts, LL + name, chk):
             stored = {target_name(tgt) for tgt, op, val, st in stores(fn.body)}
